@@ -28,6 +28,9 @@ CLAIMS = {
  "C15": dict(ref="§4 C15",
    text="Proof for all shapes>=2 and factors>=1 (CDELT or CD headers): compress stores the decimation rows/cols and the documented header; expand∘compress never violates a RegularGridInterpolator precondition, restores shape, CRPIX, CDELT/CD, removes BN_*, and places every stored row k<nx at its true original row k*f (⇒ exact at nodes, complete cells interpolated between true corners); invalid factor ⇒ None; uncompressed input returned unchanged.",
    note="RegularGridInterpolator exactness/range/bilinearity, numpy slicing algebra, astropy header mapping assumed; float32 cast not modelled; floats as reals"),
+ "C16": dict(ref="§4 C16",
+   text="Conditional proof (astropy WCS contract): pix2sky((x,y)) = W(y,x) with origin 1 for (row, column) pixels, sky2pix = swap(W^-1), so position round trips are exact given W^-1 o W = id; psf_sky2pix same convention on the psf WCS (None without one); the reference beam is evaluated at the reference pixel in (row, col) order; pix2sky_vec/ellipse step along (cos theta, sin theta) in (row, col) space with lengths = gcd and angles = bear from the centre, minor axis at theta-90 with |cos(defect)| correction; sky2pix_vec/ellipse use translate(ra,dec,r,pa), arctan2(dy,dx), minor at pa-90. Round-trip tolerances of lengths/angles are only cross-checked natively (5 projections).",
+   note="astropy all_pix2world/all_world2pix contract; gcd/bear/translate by their C17 contracts; local-linearity clauses (1e-3, 0.01 deg) not decided deductively"),
  "C17": dict(ref="§4 C17",
    text="Proof over the reals of: sexagesimal field ranges, sign, format/parse round trip to half a unit of the last digit (mod 360 for RA), non-finite placeholder (dec2dms, dec2hms, dec2dec, ra2dec); gcd symmetric, in [0,180], zero iff same point, haversine argument = |v1-v2|^2/4; bear = degrees(arctan2) of the standard PA numerator/denominator, East positive; translate lands at distance r with the rotated z-component. Not decided: triangle inequality, 1e-9 float agreement (a known finding is reported from the native cross-check).",
    note="floats as reals; sin/cos via Pythagoras+addition formulas only; arcsin/arctan2/sqrt by defining axioms; str.format rounding contract"),
